@@ -88,6 +88,155 @@ def _inline_one(caller, bi, callee):
     blk["term"] = ["Goto", bo]
 
 
+# ------------------------------------------------------------------------------------------------ closures handed to Option / Result combinators
+COMBINATORS = {"std::option::Option::map": ("Option", "map"), "std::option::Option::and_then": ("Option", "and_then"),
+               "std::result::Result::map": ("Result", "map"), "std::result::Result::and_then": ("Result", "and_then")}
+
+
+def _subst_captures(x, env_local, caps):
+    """places rooted at the closure environment (`(_1.i)` / `((*_1).i)`) -> the captured operand's own place"""
+    if isinstance(x, dict):
+        if "l" in x and "p" in x and isinstance(x["l"], int) and x["l"] == env_local:
+            p = list(x["p"])
+            j = 1 if p and p[0] == "*" else 0
+            if j < len(p) and isinstance(p[j], list) and p[j][0] == "f" and p[j][3] == "{closure}":
+                cap = caps[p[j][2]]
+                if cap[0] in ("c", "m"):
+                    return {"l": cap[1]["l"], "p": list(cap[1]["p"]) + [_subst_captures(e, env_local, caps) for e in p[j + 1:]]}
+        return {k: _subst_captures(v, env_local, caps) for k, v in x.items()}
+    if isinstance(x, list):
+        return [_subst_captures(v, env_local, caps) for v in x]
+    return x
+
+
+def _closure_literal(caller, operand):
+    """(closure key, capture operands) when the operand is a closure literal built in this body (through plain moves)"""
+    import mir
+    l = mir.op_local(operand)
+    for _ in range(6):
+        if l is None: return None
+        defs = [(bi, i, st) for bi, blk in enumerate(caller["blocks"]) for i, st in enumerate(blk["stmts"]) if st[0] == "A" and not st[1]["p"] and st[1]["l"] == l]
+        if len(defs) != 1: return None
+        rv = defs[0][2][2]
+        if rv[0] == "Agg" and rv[1][0] == "Closure": return rv[1][1], rv[2]
+        if rv[0] == "Use" and rv[1][0] in ("c", "m") and not rv[1][1]["p"]: l = rv[1][1]["l"]; continue
+        if rv[0] == "Ref" and (not rv[2]["p"] or rv[2]["p"] == ["*"]): l = rv[2]["l"]; continue
+        return None
+    return None
+
+
+FN_CALLS = ("std::ops::FnOnce::call_once", "std::ops::FnMut::call_mut", "std::ops::Fn::call")
+
+def _inline_closure_call(caller, bi, closure_fn, caps):
+    """`dst = Fn*::call*(closure, (a, b))` on a closure literal of this body -> the closure body in place"""
+    blk = caller["blocks"][bi]
+    c = blk["term"][1]
+    target, dst, line = c.get("t"), c["dst"], c.get("line")
+    if target is None or len(c["args"]) != 2 or c["args"][1][0] not in ("c", "m") or c["args"][1][1]["p"]: return False
+    if any(cap[0] not in ("c", "m") for cap in caps): return False
+    tl = c["args"][1][1]["l"]
+    lo = len(caller["locals"]); bo = len(caller["blocks"])
+    for l in closure_fn["locals"]:
+        caller["locals"].append(copy.deepcopy(l))
+    for i in range(closure_fn.get("argc", 1) - 1):
+        blk["stmts"].append(["A", {"l": lo + 2 + i, "p": []}, ["Use", ["m", {"l": tl, "p": [["f", str(i), i, "(tuple)"]]}]], line])
+    for cb in closure_fn["blocks"]:
+        nb = {"cleanup": cb["cleanup"], "stmts": [_subst_captures(_remap(s_, lo, bo), lo + 1, caps) for s_ in cb["stmts"]]}
+        t = cb["term"]
+        if t[0] == "Return":
+            nb["stmts"].append(["A", copy.deepcopy(dst), ["Use", ["m", {"l": lo, "p": []}]], line])
+            nb["term"] = ["Goto", target]
+        else:
+            nb["term"] = _subst_captures(_remap_term(copy.deepcopy(t), lo, bo), lo + 1, caps)
+        caller["blocks"].append(nb)
+    blk["term"] = ["Goto", bo]
+    return True
+
+
+def _inline_combinator(caller, bi, kind, closure_fn, caps):
+    """`dst = opt.map(closure)`  ->  switch discriminant(opt) { none/err: dst = None / Err(e) ; some/ok: dst = Some(<closure body>(payload)) }"""
+    blk = caller["blocks"][bi]
+    c = blk["term"][1]
+    fam, how = kind
+    target, dst, line = c.get("t"), c["dst"], c.get("line")
+    subject = c["args"][0]
+    if subject[0] not in ("c", "m") or subject[1]["p"] or target is None: return False
+    if any(cap[0] not in ("c", "m") for cap in caps): return False
+    if closure_fn.get("argc") != 2: return False
+    sl = subject[1]["l"]
+    lo = len(caller["locals"]); bo = len(caller["blocks"])
+    for l in closure_fn["locals"]:
+        caller["locals"].append(copy.deepcopy(l))
+    dl = len(caller["locals"]); caller["locals"].append({"ty": "isize", "head": "isize", "name": None})
+    val_variant, val_idx = ("Some", 1) if fam == "Option" else ("Ok", 0)
+    adt = "std::option::Option" if fam == "Option" else "std::result::Result"
+    some_b, none_b, join_b = bo + len(closure_fn["blocks"]), bo + len(closure_fn["blocks"]) + 1, bo + len(closure_fn["blocks"]) + 2
+    # closure body, environment places rewritten to the captured operands, its parameter fed from the payload
+    for cb in closure_fn["blocks"]:
+        nb = {"cleanup": cb["cleanup"], "stmts": [_subst_captures(_remap(s_, lo, bo), lo + 1, caps) for s_ in cb["stmts"]]}
+        t = cb["term"]
+        if t[0] == "Return":
+            nb["term"] = ["Goto", join_b]
+        else:
+            nb["term"] = _subst_captures(_remap_term(copy.deepcopy(t), lo, bo), lo + 1, caps)
+        caller["blocks"].append(nb)
+    payload = {"l": sl, "p": [["d", val_variant, val_idx], ["f", "0", 0, adt]]}
+    caller["blocks"].append({"cleanup": False, "stmts": [["A", {"l": lo + 2, "p": []}, ["Use", ["m", payload]], line]], "term": ["Goto", bo]})          # some_b
+    if fam == "Option":
+        none_stmts = [["A", copy.deepcopy(dst), ["Agg", ["Adt", adt, "None", 0], []], line]]
+    else:
+        errp = {"l": sl, "p": [["d", "Err", 1], ["f", "0", 0, adt]]}
+        none_stmts = [["A", copy.deepcopy(dst), ["Agg", ["Adt", adt, "Err", 1], [["m", errp]]], line]]
+    caller["blocks"].append({"cleanup": False, "stmts": none_stmts, "term": ["Goto", target]})                                                              # none_b
+    if how == "map":
+        join_stmts = [["A", copy.deepcopy(dst), ["Agg", ["Adt", adt, val_variant, val_idx], [["m", {"l": lo, "p": []}]]], line]]
+    else:
+        join_stmts = [["A", copy.deepcopy(dst), ["Use", ["m", {"l": lo, "p": []}]], line]]
+    caller["blocks"].append({"cleanup": False, "stmts": join_stmts, "term": ["Goto", target]})                                                              # join_b
+    blk["stmts"].append(["A", {"l": dl, "p": []}, ["Discr", {"l": sl, "p": []}], line])
+    arms = [[1 - val_idx, none_b]]
+    blk["term"] = ["Switch", ["m", {"l": dl, "p": []}], arms, some_b, line, "isize"]
+    return True
+
+
+def inline_new_closures(d, ref):
+    """closures that did not exist on the confirmed tree and are handed straight to Option / Result `map` / `and_then` are expanded in place (the match the
+    combinator stands for, with the closure body in its value arm): `opt.map(|x| ..)` written instead of `if let Some(x) = opt {..}` keeps one shape."""
+    if ref is None or "closures" not in ref:
+        return []
+    notes = []
+    known = set(ref["closures"])
+    count_ref = {}
+    for k in known:
+        count_ref[k.rsplit("::{closure#", 1)[0]] = count_ref.get(k.rsplit("::{closure#", 1)[0], 0) + 1
+    by_key = {}
+    for f in d["fns"]: by_key.setdefault(f["key"], []).append(f)
+    count_now = {}
+    for f in d["fns"]:
+        if "::{closure#" in f["key"] and f.get("kind") == "Closure":
+            o = f["key"].rsplit("::{closure#", 1)[0]; count_now[o] = count_now.get(o, 0) + 1
+    for f in list(d["fns"]):
+        for bi in range(len(f["blocks"])):
+            t = f["blocks"][bi]["term"]
+            if t[0] != "Call" or len(t[1]["args"]) != 2: continue
+            direct = (t[1].get("f") or "") in FN_CALLS
+            if not direct and (t[1].get("f") or "") not in COMBINATORS: continue
+            lit = _closure_literal(f, t[1]["args"][0 if direct else 1])
+            if lit is None: continue
+            ck, caps = lit
+            owner = ck.rsplit("::{closure#", 1)[0]
+            if ck in known and count_now.get(owner, 0) == count_ref.get(owner, 0): continue          # a closure the rules already know
+            cf = by_key.get(ck)
+            if not cf or len(cf) != 1 or cf[0].get("is_coroutine") or len(cf[0]["blocks"]) > MAX_BLOCKS: continue
+            if direct:
+                if _inline_closure_call(f, bi, cf[0], caps):
+                    notes.append(f"expanded the call of closure {ck.split('::', 1)[-1][-60:]} in place (closure not part of the function set the rules were confirmed on)")
+                continue
+            if _inline_combinator(f, bi, COMBINATORS[t[1]["f"]], cf[0], caps):
+                notes.append(f"expanded {t[1]['f'].split('::')[-1]}({ck.split('::', 1)[-1][-60:]}) in place (closure not part of the function set the rules were confirmed on)")
+    return notes
+
+
 def inline_new_helpers(d, ref):
     """d: raw fact dict (after anchor recovery); ref: anchors.json.  Returns notes."""
     if ref is None:
